@@ -90,6 +90,7 @@ class Gen:
         self.rng = rng
         self.lines = []
         self.tags = set()
+        self.dyn = 0
 
     def emit(self, ind, s):
         self.lines.append("    " * ind + s)
@@ -121,7 +122,7 @@ class Gen:
         later = list(range(i + 1, nfun))
         plain = [j for j in later if j not in gens]
         glist = [j for j in later if j in gens]
-        k = rng.randrange(17)
+        k = rng.randrange(19)
         if not plain:
             k = rng.choice([1, 2, 6])
         if k in (0, 7, 12) or (k == 10 and not glist):
@@ -202,6 +203,21 @@ class Gen:
             j = rng.choice(plain)
             self.guarded(ind, j, raisers, lambda n: self.logged(n, qual + ".<locals>.<lambda>", "(lambda _x: q_f%d(_x))(d)" % j))
             self.tags.add("lambda")
+        elif k in (17, 18):
+            # functions made at run time with compile()/exec() and dropped again (rule/template engines, plugin
+            # loaders): their code objects die and the next ones are born at the same addresses; a function is
+            # identified by its name, whatever object carries it
+            self.dyn += 1
+            names = ["q_dy%d_%s" % (self.dyn, c) for c in "abc"[:rng.choice([2, 3])]]
+            self.emit(ind, "for _n in %r:" % (tuple(names),))
+            self.emit(ind + 1, "_ns = {'c19lib': c19lib, '__name__': '__main__'}")
+            self.logged(ind + 1, "builtins.compile", "_co = compile(DYN_SRC % (_n, _n, _n), '<dyn>', 'exec')")
+            self.logged(ind + 1, "builtins.exec", "exec(_co, _ns)")
+            self.emit(ind + 1, "_fn = _ns[_n]")
+            self.emit(ind + 1, "del _ns[_n]")        # no cycle function -> globals -> function: it dies at once
+            self.emit(ind + 1, "_fn(d)")
+            self.emit(ind + 1, "del _fn, _ns, _co")
+            self.tags.add("functions-made-at-run-time")
         elif k in (13, 14, 15, 16):
             j = rng.choice(plain)
             self.guarded(ind, j, raisers, lambda n: self.emit(n, "q_f%d(d)" % j))
@@ -219,7 +235,9 @@ class Gen:
         end_fn = rng.randrange(0, min(3, nfun)) if ending in ("sys.exit", "os._exit") else None
         self.tags.add("ending:" + ending)
         L = self.lines
-        L += ["#!/usr/bin/env python3", "import os, sys, math", "import c19lib", "import c19mod", ""]
+        L += ["#!/usr/bin/env python3", "import os, sys, math", "import c19lib", "import c19mod", "",
+              'DYN_SRC = ("c19lib.LOG += [\'E __main__.<module>\']\\ndef %s(d):\\n    c19lib.LOG += [\'E %s\']\\n"',
+              '           "    c19lib.LOG += [\'X %s\']\\n    return d\\nc19lib.LOG += [\'X __main__.<module>\']\\n")', ""]
         style, names = {}, {}
         for j in range(nfun):
             style[j] = rng.choice(["plain", "plain", "plain", "method", "closure"]) if j >= 1 and j not in gens else "plain"
@@ -637,6 +655,19 @@ UNCAUGHT_PROG = {"src": "#!/usr/bin/env python3\nimport sys\nimport c19lib\n"
                         "q_a()\n",
                  "ending": "uncaught", "fnames": ["q_a", "q_b"], "tags": ["fixed:uncaught-exception"]}
 
+# functions made at run time and dropped again: every call must be recorded under its own name, whichever freed
+# code object's address the new one gets (seed C19-9: a cache keyed by the code object's address)
+DYN_PROG = {"src": "#!/usr/bin/env python3\nimport sys\nimport c19lib\n"
+                   "SRC = (\"c19lib.LOG += ['E __main__.<module>']\\ndef %s(d):\\n    c19lib.LOG += ['E %s', 'X %s']\\n    return d\\n\"\n"
+                   "       \"c19lib.LOG += ['X __main__.<module>']\\n\")\n"
+                   "def q_run(n):\n    c19lib.LOG += ['E q_run']\n    ns = {'c19lib': c19lib, '__name__': '__main__'}\n"
+                   "    c19lib.LOG += ['E builtins.compile']\n    co = compile(SRC % (n, n, n), '<dyn>', 'exec')\n"
+                   "    c19lib.LOG += ['X builtins.compile', 'E builtins.exec']\n    exec(co, ns)\n    c19lib.LOG += ['X builtins.exec']\n"
+                   "    fn = ns[n]\n    del ns[n]\n    fn(1)\n    del fn, ns, co\n    c19lib.LOG += ['X q_run']\n"
+                   "for n in ('q_rule_a', 'q_rule_b', 'q_rule_c', 'q_rule_d', 'q_rule_e', 'q_rule_f'):\n    q_run(n)\n"
+                   "c19lib.q_dump(sys.argv[1])\n",
+            "ending": "normal", "fnames": ["q_run"], "tags": ["fixed:functions-made-at-run-time"]}
+
 OSEXIT_PROG = {"src": "#!/usr/bin/env python3\nimport os, sys\nimport c19lib\ndef q_b():\n    c19lib.LOG += ['E q_b', 'X q_b']\n"
                       "def q_a():\n    c19lib.LOG += ['E q_a']\n    q_b()\n    c19lib.q_dump(sys.argv[1])\n    os._exit(4)\nq_a()\n",
                "ending": "os._exit", "fnames": ["q_a", "q_b"], "tags": ["witness:os._exit"]}
@@ -700,7 +731,8 @@ def run(ctx, objdir):
         else:
             ecases.append(k)      # behaves as documented in this environment: judged like every other case
             ctx.known_finding(NATIVE_KEY, text, False)
-    for prog, name, forms in ((TB_PROG, "own-traceback", ("abs", "rel")), (UNCAUGHT_PROG, "uncaught-exception", ("abs", "path"))):
+    for prog, name, forms in ((TB_PROG, "own-traceback", ("abs", "rel")), (UNCAUGHT_PROG, "uncaught-exception", ("abs", "path")),
+                              (DYN_PROG, "functions-made-at-run-time", ("abs", "rel"))):
         w.write(prog)
         for form in forms:
             k = one_config(ctx, w, prog, None, "SINGLE" if form == "abs" else "NESTED", None, None, form)
